@@ -73,6 +73,27 @@ Theorem c03_semantics : forall nq nc c, wf_circ nq c = true ->
   hc t' = hc t.
 Proof. exact semantics_full. Qed.
 
+(* the cut_wires form: whatever operation the factory inserted (the Qpd2 "cut_move" placeholder), executing the
+   inserted operations as Moves gives literally the _transform_cuts_to_moves circuit ... *)
+Theorem c03_cut_wires_as_moves : forall fac nq c,
+  exec_inserted_as_moves c (cut_wires_gen fac nq c) = cut_wires_moves nq c.
+Proof. exact exec_inserted_cut_wires. Qed.
+
+(* ... also when the placeholder is recognised by its operation rather than by position, provided the input does
+   not already contain that operation (false e.g. for cut_wires (cut_wires c)) *)
+Theorem c03_unwrap : forall fac nq c, (forall i, In i c -> op_beq (iop i) fac = false) ->
+  map (unwrap fac) (cut_wires_gen fac nq c) = cut_wires_moves nq c.
+Proof. exact unwrap_cut_wires. Qed.
+
+(* ... hence c03_semantics holds for cut_wires' own output, for every factory *)
+Theorem c03_semantics_cut_wires : forall fac nq nc c, wf_circ nq c = true ->
+  let t  := denote nq nc (erase_markers c) in
+  let t' := denote (nq + count_markers c) nc (exec_inserted_as_moves c (cut_wires_gen fac nq c)) in
+  (forall q, q < nq -> wire t' (final_position c q) = wire t q) /\
+  (forall j, (forall q, q < nq -> j <> final_position c q) -> wire t' j = Zero) /\
+  hc t' = hc t.
+Proof. exact semantics_full_gen. Qed.
+
 (* ignoring markers = executing them as identities *)
 Theorem c03_markers_transparent : forall nq nc c, denote nq nc c = denote nq nc (erase_markers c).
 Proof. exact denote_erase. Qed.
@@ -127,6 +148,17 @@ Example c03_ex_semantics :
   wire t' 0 = Zero /\ wire t' 1 = Zero /\ wire t' 3 = Zero.
 Proof. vm_compute. repeat split; discriminate. Qed.
 
+Example c03_ex_cut_wires_form :
+  let fac := Qpd2 0 None (Some (0, None)) in
+  cut_wires_gen fac 2 f1_witness =
+    [mkI (Gate 0) [0] []; mkI fac [0; 1] []; mkI (Gate 1) [1; 3] []; mkI fac [3; 4] [];
+     mkI (Gate 0) [4] []; mkI fac [1; 2] []; mkI (Gate 2) [2] []] /\
+  map (unwrap fac) (cut_wires_gen fac 2 f1_witness) = cut_wires_moves 2 f1_witness /\
+  (* nested call: a pre-placed placeholder is left alone by the positional form, not by unwrap *)
+  exec_inserted_as_moves (cut_wires_gen fac 2 f1_witness) (cut_wires_gen fac 5 (cut_wires_gen fac 2 f1_witness))
+    = cut_wires_gen fac 2 f1_witness.
+Proof. vm_compute. repeat split. Qed.
+
 Example c03_ex_expand :
   expand 2 [0; 1] (new_qubits 2 f1_witness) [mkP 1 [3; 1]] = Ok [mkP 1 [0; 0; 3; 0; 1]].
 Proof. reflexivity. Qed.
@@ -151,6 +183,9 @@ Print Assumptions c03_instructions.
 Print Assumptions c03_instructions_kept.
 Print Assumptions c03_instructions_inserted.
 Print Assumptions c03_semantics.
+Print Assumptions c03_cut_wires_as_moves.
+Print Assumptions c03_unwrap.
+Print Assumptions c03_semantics_cut_wires.
 Print Assumptions c03_markers_transparent.
 Print Assumptions c03_move_targets_fresh.
 Print Assumptions c03_expand.
